@@ -66,10 +66,17 @@ def run_driver(manifest_dir, cargo_args, crates=None, extra_env=None, check_args
 
 
 _facts_cache = {}
+ALIAS = {}   # C19 re-runs other properties' rules under another configuration by aliasing K1
+
+
+def units_enabled(prog):
+    """True iff dimension checking is compiled in (Unit carries its exponent fields)."""
+    return bool(prog.adt_by_name("Unit")["variants"][0]["fields"])
 
 
 def load_config(cfg):
     """Facts of /repo's current working tree under configuration cfg (K1..K6)."""
+    cfg = ALIAS.get(cfg, cfg)
     if cfg in _facts_cache:
         return _facts_cache[cfg]
     res, p = run_driver(REPO, CONFIGS[cfg], crates=["rrtk"])
